@@ -72,6 +72,9 @@ def v_mmst(inst: Any, p: Dict[str, Any], ctx: Dict[str, Any]) -> List[Problem]:
                     f"node {int(deg.argmax())} has degree {int(deg.max())}, max_degree={D} "
                     f"(degrees {deg.tolist()})"))
     lab = components(a)
+    iso = np.nonzero(deg == 0)[0]
+    if len(iso) and N > 1:  # stronger than 'several components': a node no agent can ever reach or leave
+        out.append(("isolated-node", f"nodes {iso.tolist()} have no edge at all (degrees {deg.tolist()})"))
     if lab.max() != 0:
         out.append(("graph-not-connected", f"{int(lab.max()) + 1} connected components"))
     ntc = np.asarray(inst.nodes_to_connect)
